@@ -116,8 +116,19 @@ class RateLimitedEntity(Entity):
         self._received += 1
         self.received_times.append(now)
 
-        if self._policy.try_acquire(now):
-            return self._forward(event, now)
+        # Requests that are already waiting go first: a new arrival must not
+        # overtake the queue (e.g. when it lands on the pending poll instant but
+        # is delivered before the poll event). Capacity available now serves the
+        # head of the queue; the arrival joins the queue behind it.
+        result: list[Event] = []
+        if self._queue.is_empty():
+            if self._policy.try_acquire(now):
+                return self._forward(event, now)
+        elif self._policy.try_acquire(now):
+            queued_event = self._queue.pop()
+            if queued_event is None:
+                raise RuntimeError("Queue reported non-empty but pop() returned None")
+            result = self._forward(queued_event, now)
 
         # Queue the event
         if self._queue.push(event):
@@ -128,7 +139,8 @@ class RateLimitedEntity(Entity):
                 self.name,
                 len(self._queue),
             )
-            return self._ensure_poll_scheduled(now)
+            result.extend(self._ensure_poll_scheduled(now))
+            return result
 
         # Queue full — drop
         self._dropped += 1
@@ -139,7 +151,7 @@ class RateLimitedEntity(Entity):
             self.name,
             len(self._queue),
         )
-        return []
+        return result
 
     def _handle_poll(self, event: Event) -> list[Event]:
         now = event.time
